@@ -205,6 +205,18 @@ Definition run_rr (args : list (list byte)) : list byte :=
   | _ => s2b "BADCASE"
   end.
 (* BUILD mode PKT...: build_bytes_vec (P) / build_bytes_vec_compressed (C) of a packet assembled from its description *)
+(* the compression table Packet::write_compressed_to ends with (the same threading of the table as Packet.encc_packet) *)
+Definition encc_table (p : packet) : table :=
+  let '(bq, t1) := wc_list wc_question (qs p) [] 12 in
+  let '(ba, t2) := wc_list wc_rr (ans p) t1 (12 + len bq) in
+  let '(bn, t3) := wc_list wc_rr (nss p) t2 (12 + len bq + len ba) in
+  let bo := match opt_rr p with Some r => enc_rr r | None => [] end in
+  let '(bx, t4) := wc_list wc_rr (adds p) t3 (12 + len bq + len ba + len bn + len bo) in
+  t4.
+Fixpoint commas (l : list (list byte)) : list byte :=
+  match l with [] => [] | [x] => x | x :: r => x ++ [x2c] ++ commas r end.
+Definition table_row (e : list label * N) : list byte := commas (name_toks (fst e)) ++ [x40] ++ N_to_hex (snd e).
+
 Definition run_build (args : list (list byte)) : list byte :=
   match args with
   | mode :: rest =>
@@ -213,6 +225,7 @@ Definition run_build (args : list (list byte)) : list byte :=
       if tok_eqb mode "P" then out_line (write_packet p) bytes_to_hex
       else if tok_eqb mode "C" then out_line (write_packet_compressed p) bytes_to_hex
       else if tok_eqb mode "W" then (if wf_packetb p then s2b "1" else s2b "0")   (* model only: does the C02 hypothesis cover p? *)
+
       else s2b "BADCASE"
     | _ => s2b "BADCASE"
     end
@@ -415,6 +428,14 @@ Definition run_escape (args : list (list byte)) : list byte :=
 Fixpoint insert_tok (a : list byte) (l : list (list byte)) : list (list byte) :=
   match l with [] => [a] | x :: r => if bytes_leb x a then x :: insert_tok a r else a :: l end.
 Definition sort_toks (l : list (list byte)) : list (list byte) := fold_right insert_tok [] l.
+(* TABLE PKT...: the compression table of the compressed write, sorted *)
+Definition run_table (args : list (list byte)) : list byte :=
+  match r_packet args with
+  | Some (p, []) =>
+    out_line (write_packet_compressed p) (fun b => let t := encc_table p in
+                                                   unwords (nat_tok (List.length t) :: sort_toks (map table_row t) ++ [s2b "|"; bytes_to_hex b]))
+  | _ => s2b "BADCASE"
+  end.
 Definition rrs_tok (l : list rr) : list byte :=
   unwords (nat_tok (List.length l) :: sort_toks (map (fun r => unwords (rr_toks r)) l)).
 Definition groups_tok (g : list (list rr)) : list byte :=
@@ -770,6 +791,7 @@ Definition run_line (line : list byte) : list byte :=
     else if tok_eqb cmd "PEEKF" then run_peekf args
     else if tok_eqb cmd "SHOW" then run_show args
     else if tok_eqb cmd "COUNTS" then run_counts args
+    else if tok_eqb cmd "TABLE" then run_table args
     else if tok_eqb cmd "SOCKR" then s2b "SOCK"
     else if tok_eqb cmd "SOCK" then s2b "SOCK"     (* real sockets: nothing to compute; C14_responder_total says the loop body returns *)
     else s2b "BADCASE"
